@@ -268,61 +268,6 @@ private theorem forall_nodes_perm (P : Node → Prop) (hP : ∀ d, P (.document 
     · exact hP _
     · exact H n (Or.inr ⟨x, h.mem_iff.mp hx, hm⟩)
 
-/-- rules with a `rule_*_iff` theorem of the node-by-node kind -/
-def LocalProved : List Rule :=
-  [.uniqueArgumentNames, .uniqueDirectivesPerLocation, .singleFieldSubscriptions, .knownTypeNames, .variablesAreInputTypes]
-
-/-- **perm_definitions** (for the rules proved so far): the verdict of the rule does not depend on the order
-    of the definitions of the document. For the remaining rules see `Spec.Unproved`, and
-    `perm_definitions_refuted_unfixed` (C06_witness) for why the FULL statement is false of the unfixed tree. -/
-theorem perm_definitions_partial (s : SchemaD) (fx : Fixes) {d d' : Doc} (h : d.defs.Perm d'.defs)
-    (r : Rule) (hr : r ∈ LocalProved) : Silent s fx r d ↔ Silent s fx r d' := by
-  simp only [LocalProved, List.mem_cons, List.not_mem_nil, or_false] at hr
-  rcases hr with rfl | rfl | rfl | rfl | rfl
-  · have hL := leave_len s fx .uniqueArgumentNames (by decide)
-    have hc := cf_of s fx _ _ (fun n ti rs _ => uniqueArgs_enter s fx n ti rs) hL
-    rw [silent_iff_nodes s fx _ fUniqueArgs d hc (by intro ti rs; simp [enterRule]) rfl hL,
-      silent_iff_nodes s fx _ fUniqueArgs d' hc (by intro ti rs; simp [enterRule]) rfl hL]
-    exact forall_nodes_perm (fun n => fUniqueArgs n = 0) (fun _ => rfl) h
-  · have hL := leave_len s fx .uniqueDirectivesPerLocation (by decide)
-    have hc := cf_of s fx _ _ (fun n ti rs _ => uniqueDirs_enter s fx n ti rs) hL
-    rw [silent_iff_nodes s fx _ fUniqueDirs d hc (by intro ti rs; simp [enterRule]) rfl hL,
-      silent_iff_nodes s fx _ fUniqueDirs d' hc (by intro ti rs; simp [enterRule]) rfl hL]
-    exact forall_nodes_perm (fun n => fUniqueDirs n = 0) (fun _ => rfl) h
-  · have hL := leave_len s fx .singleFieldSubscriptions (by decide)
-    have hc := cf_of s fx _ _ (fun n ti rs _ => singleSub_enter s fx n ti rs) hL
-    rw [silent_iff_nodes s fx _ fSingleSub d hc (by intro ti rs; simp [enterRule]) rfl hL,
-      silent_iff_nodes s fx _ fSingleSub d' hc (by intro ti rs; simp [enterRule]) rfl hL]
-    exact forall_nodes_perm (fun n => fSingleSub n = 0) (fun _ => rfl) h
-  · have hL := leave_len s fx .knownTypeNames (by decide)
-    have hc := cf_of s fx _ _ (fun n ti rs _ => knownTypes_enter s fx n ti rs) hL
-    rw [silent_iff_nodes s fx _ (fKnownTypes s) d hc (by intro ti rs; simp [enterRule]) rfl hL,
-      silent_iff_nodes s fx _ (fKnownTypes s) d' hc (by intro ti rs; simp [enterRule]) rfl hL]
-    exact forall_nodes_perm (fun n => fKnownTypes s n = 0) (fun _ => rfl) h
-  · have hL := leave_len s fx .variablesAreInputTypes (by decide)
-    have hc := cf_of s fx _ _ (fun n ti rs _ => varInput_enter s fx n ti rs) hL
-    rw [silent_iff_nodes s fx _ (fVarInput s) d hc (by intro ti rs; simp [enterRule]) rfl hL,
-      silent_iff_nodes s fx _ (fVarInput s) d' hc (by intro ti rs; simp [enterRule]) rfl hL]
-    exact forall_nodes_perm (fun n => fVarInput s n = 0) (fun _ => rfl) h
-
-/-- the full statement of the invariance part of C06 on the model (all rules, all six transformations);
-    `perm_definitions_partial` proves the definitions-reordering part for `LocalProved` -/
-def FullStatement_perm_definitions : Prop :=
-  ∀ (s : SchemaD) (d d' : Doc), d.defs.Perm d'.defs →
-    verdict { schema := s, fixes := Fixes.all } d = verdict { schema := s, fixes := Fixes.all } d'
-
-/-- conjunction of the rules proved: all of them silent ⇔ all their specification predicates hold -/
-theorem verdict_iff_partial (s : SchemaD) (fx : Fixes) (d : Doc) :
-    (∀ r ∈ LocalProved, Silent s fx r d) ↔
-      (Spec.uniqueArgumentNames d ∧ Spec.uniqueDirectivesPerLocation d ∧ Spec.singleFieldSubscriptions d ∧
-       Spec.knownTypeNames s d ∧ Spec.variablesAreInputTypes s d) := by
-  simp only [LocalProved, List.mem_cons, List.not_mem_nil, or_false, forall_eq_or_imp, forall_eq,
-    rule_unique_argument_names_iff, rule_unique_directives_per_location_iff, rule_single_field_subscriptions_iff,
-    rule_known_type_names_iff, rule_variables_are_input_types_iff]
-
-/-- every rule of the chain is either proved (`LocalProved`) or listed in `Spec.Unproved` -/
-theorem proved_or_listed : ∀ r ∈ Rule.all, r ∈ LocalProved ∨ r.name ∈ Spec.Unproved := by decide
-
 /-! non-vacuity -/
 example : Spec.uniqueArgumentNames ⟨[.op "query" none [] [] 0 [.field none "a" [⟨"x", .int "1"⟩, ⟨"y", .int "2"⟩] [] false 0 []]]⟩ := by
   unfold Spec.uniqueArgumentNames
